@@ -116,6 +116,9 @@ pub enum LexerErrorReason {
     /// The suffix for a floating point token is not a valid suffix
     FloatInvalidSuffix,
 
+    /// An integer literal does not fit into 64 bits
+    IntegerLiteralTooLarge,
+
     /// A string literal wraps the end of a line (but does end before end of stream)
     StringWrapsLine,
 
@@ -149,6 +152,7 @@ impl CompileError for LexerError {
             LexerErrorReason::OtherTokenBytes => "internal lexer error",
             LexerErrorReason::EndOfStream => "unexpected end of stream",
             LexerErrorReason::FloatInvalidSuffix => "unexpected end of stream",
+            LexerErrorReason::IntegerLiteralTooLarge => "integer literal is too large",
             LexerErrorReason::StringWrapsLine => "string literal not terminated at end of line",
             LexerErrorReason::StringWrapsFile => "string literal never terminates",
             LexerErrorReason::StringContainsInvalidCharacters => {
@@ -260,11 +264,19 @@ fn digit(input: &[u8]) -> LexResult<'_, u64> {
 
 /// Parse multiple decimal digits into a 64-bit value
 fn digits(input: &[u8]) -> LexResult<'_, u64> {
+    let start_input = input;
     let (mut input, mut value) = digit(input)?;
     while let Ok((next_input, d)) = digit(input) {
         input = next_input;
-        value *= 10;
-        value += d;
+        value = match value.checked_mul(10).and_then(|v| v.checked_add(d)) {
+            Some(value) => value,
+            None => {
+                return Err(LexErrorContext(
+                    start_input,
+                    LexerErrorReason::IntegerLiteralTooLarge,
+                ));
+            }
+        };
     }
     Ok((input, value))
 }
@@ -319,11 +331,19 @@ fn digit_hex(input: &[u8]) -> LexResult<'_, u64> {
 
 /// Parse multiple hexadecimal digits into a 64-bit value
 fn digits_hex(input: &[u8]) -> LexResult<'_, u64> {
+    let start_input = input;
     let (mut input, mut value) = digit_hex(input)?;
     while let Ok((next_input, d)) = digit_hex(input) {
         input = next_input;
-        value *= 16;
-        value += d;
+        value = match value.checked_mul(16).and_then(|v| v.checked_add(d)) {
+            Some(value) => value,
+            None => {
+                return Err(LexErrorContext(
+                    start_input,
+                    LexerErrorReason::IntegerLiteralTooLarge,
+                ));
+            }
+        };
     }
     Ok((input, value))
 }
@@ -364,11 +384,19 @@ fn digit_octal(input: &[u8]) -> LexResult<'_, u64> {
 
 /// Parse multiple octal digits into a 64-bit value
 fn digits_octal(input: &[u8]) -> LexResult<'_, u64> {
+    let start_input = input;
     let (mut input, mut value) = digit_octal(input)?;
     while let Ok((next_input, d)) = digit_octal(input) {
         input = next_input;
-        value *= 8;
-        value += d;
+        value = match value.checked_mul(8).and_then(|v| v.checked_add(d)) {
+            Some(value) => value,
+            None => {
+                return Err(LexErrorContext(
+                    start_input,
+                    LexerErrorReason::IntegerLiteralTooLarge,
+                ));
+            }
+        };
     }
     Ok((input, value))
 }
@@ -649,10 +677,14 @@ fn float_exponent(input: &[u8]) -> LexResult<'_, Exponent> {
         _ => return wrong_chars(input),
     };
     let (input, s_opt) = opt(sign)(input)?;
-    let (input, exponent) = digits(input)?;
+    let (input, exponent_digits) = digit_sequence(input)?;
+    // Exponents beyond the range of any float saturate instead of overflowing
+    let exponent = exponent_digits.iter().fold(0i64, |acc, d| {
+        acc.saturating_mul(10).saturating_add(*d as i64)
+    });
     let exponent = match s_opt {
-        Some(Sign::Negative) => -(exponent as i64),
-        _ => exponent as i64,
+        Some(Sign::Negative) => -exponent,
+        _ => exponent,
     };
     Ok((input, Exponent(exponent)))
 }
